@@ -770,6 +770,88 @@ def report(ctx, total):
 
 
 # ---------------------------------------------------------------------- run
+def multi_part(quick):
+    """
+    All small configurations of multi_run_ode against direct run_ode calls.
+
+    Test and training groups get different numbers of steps and time limits;
+    the collector must receive, in order, one result per start state with
+    the requested number of rows of its own group (or one failure row), and
+    the J / t values of that result.
+    """
+    import itertools
+
+    from moptipyapps.dynamic_control.ode import (
+        j_from_ode,
+        multi_run_ode,
+        run_ode,
+        t_from_ode,
+    )
+
+    def eqs(state, _t, control, out):
+        out[0] = -state[0] + control[0]
+        out[1] = -0.5 * state[1] + control[0]
+
+    def ctrl(state, _t, params, out):
+        out[0] = params[0] * state[0]
+
+    s1 = np.array([1.0, -2.0])
+    s2 = np.array([0.5, 0.25])
+    s3 = np.array([-1.0, 3.0])
+    groups = [[], [s1], [s2, s3]]
+    stepss = (2, 3, 7) if quick else (2, 3, 7, 10)
+    cnt = 0
+    bad = []
+    for tests, trains in itertools.product(groups, groups):
+        if not tests and not trains:
+            continue
+        for (ts, trs) in itertools.product(stepss, stepss):
+            for (tt, trt) in ((0.5, 2.0), (2.0, 0.5), (1.0, 1.0)):
+                for (usd, gamma) in ((-1, 0.1), (1, 2.0)):
+                    got = []
+                    params = np.array([-1.0])
+                    multi_run_ode(tests, trains,
+                                  lambda i, o, j, t: got.append(
+                                      (i, np.array(o), j, t)),
+                                  eqs, ctrl, params, 1, ts, tt, trs, trt,
+                                  usd, gamma)
+                    cnt += 1
+                    exp = []
+                    for sp in tests:
+                        exp.append(run_ode(sp, eqs, ctrl, params, 1, ts,
+                                           tt))
+                    for sp in trains:
+                        exp.append(run_ode(sp, eqs, ctrl, params, 1, trs,
+                                           trt))
+                    want = [ts] * len(tests) + [trs] * len(trains)
+                    ok = len(got) == len(exp)
+                    why = "number of collected results"
+                    if ok:
+                        for k, (i, o, j, t) in enumerate(got):
+                            if i != k:
+                                ok, why = False, "index order"
+                            elif o.shape[0] not in (want[k], 1):
+                                ok = False
+                                why = (f"result {k} has {o.shape[0]} rows, "
+                                       f"requested {want[k]}")
+                            elif not np.array_equal(o, exp[k]):
+                                ok, why = False, f"result {k} differs"
+                            elif j != j_from_ode(exp[k], 2, usd, gamma) \
+                                    or t != t_from_ode(exp[k]):
+                                ok, why = False, f"J or t of result {k}"
+                    if not ok and len(bad) < 3:
+                        bad.append((
+                            "multi_run_ode|" + why.split(" has ")[0].split(
+                                " 0")[0],
+                            f"multi_run_ode with {len(tests)} test and "
+                            f"{len(trains)} training states, steps "
+                            f"({ts}, {trs}), times ({tt}, {trt}): {why}",
+                            {"multi": True, "tests": len(tests),
+                             "trains": len(trains), "steps": [ts, trs],
+                             "times": [tt, trt]}))
+    return cnt, bad
+
+
 def run(ctx: Ctx) -> None:
     quick = ctx.quick
     for name in SYS_DIMS:
@@ -838,6 +920,16 @@ def run(ctx: Ctx) -> None:
             f"{len(fired_full)} paths={len(ft['paths'])}")
     report(ctx, ft)
 
+    # ---- part 3: multi_run_ode hands every start state to run_ode with the
+    # steps / time limit of its own group (tests first, then training)
+    mc, mbad = multi_part(quick)
+    for sig, text, rep in mbad:
+        ctx.violation(sig, text, rep)
+    ctx.add("evaluations", mc)
+    ctx.add("traces_validated_against_impl", mc)
+    ctx.part("multi_run_ode", configurations=mc)
+    ctx.log(f"multi_run_ode: {mc} configurations")
+
     nontrivial = {p for p in list(tot["paths"]) + list(ft["paths"])
                   if len(p) > 2 or not p[-1].startswith("exit:return")}
     ctx.cov["distinct_nontrivial"] = len(nontrivial)
@@ -867,6 +959,10 @@ def run(ctx: Ctx) -> None:
 
 
 def replay(ctx: Ctx, rep: dict) -> bool:
+    if rep.get("multi"):
+        c, bad = multi_part(True)
+        print(bad)
+        return not bad
     p = rep["program"]
     r = execute(p, p.get("horizon"))
     print(describe(p))
